@@ -8,7 +8,7 @@ def build(ctx):
     objs = []
     for i, src in enumerate(["compat/mem/lin_malloc.cpp", "compat/mem/lin_realloc.cpp"]):
         o = os.path.join(ctx.work, "lin%d.o" % i)
-        ctx.sh(["g++", "-std=gnu++20", "-g", "-O1", "-fsanitize=address", "-fno-omit-frame-pointer", "-w", "-I" + R, "-I" + R + "/compat/mem",
+        ctx.sh(["g++", "-std=gnu++20", "-g", "-O1"] + core.cov_flags() + ["-fsanitize=address", "-fno-omit-frame-pointer", "-w", "-I" + R, "-I" + R + "/compat/mem",
                 "-c", os.path.join(R, src), "-o", o], timeout=600)
         ctx.sh(["objcopy", "--redefine-sym", "malloc=igv_malloc", "--redefine-sym", "free=igv_free", "--redefine-sym", "realloc=igv_realloc", o])
         objs.append(o)
